@@ -1320,14 +1320,15 @@ impl ProtocolState {
         }
 
         if let Some(timeout_duration) = timeout_duration_option {
-            let timeout = now + timeout_duration;
+            // a deadline beyond the representable future never fires
+            if let Some(timeout) = now.checked_add(timeout_duration) {
+                let timeout_record = OperationTimeoutRecord {
+                    id,
+                    timeout
+                };
 
-            let timeout_record = OperationTimeoutRecord {
-                id,
-                timeout
-            };
-
-            self.operation_ack_timeouts.push(Reverse(timeout_record));
+                self.operation_ack_timeouts.push(Reverse(timeout_record));
+            }
         }
     }
 
